@@ -438,6 +438,9 @@ class Exec:
         c = self.truth(st, self.ev(st, n.test), n)
         if not is_sym(c):
             return self.ev(st, n.body if c else n.orelse)
+        if self.c.get('expr_fork') and self.c.get('ifexp_fork'):
+            # the arms may have side effects (e.g. a constructor call): decide the condition and re-execute the statement on both forks
+            raise ForkRequest(c.e)
         st.pc.append(c.e)
         try:
             a = self.ev(st, n.body)
@@ -894,7 +897,8 @@ class Exec:
             except (NotInSubset, ContractError, KeyError, TypeError, AttributeError):
                 del self.obls[nobl_:]
                 return [st]
-        if not self.c.get('expr_fork'):
+        if not self.c.get('expr_fork') or self.inline_depth > 0:
+            # (inside an inlined call a ForkRequest propagates to the statement of the caller, which is re-executed as a whole)
             return m(st, s)
         snap = st.fork()
         nobl = len(self.obls)
